@@ -51,17 +51,34 @@ void harness(void)
 #ifdef VF_MINLEN
     VF_ASSUME(n >= VF_MINLEN);
 #endif
+#ifdef VF_EXACTLEN     /* constant total length: loop exits are concrete, only the content is symbolic */
+    n = VF_EXACTLEN;
+#endif
     unsigned char fill = nondet_uchar(), odd1 = nondet_uchar(), odd2 = nondet_uchar();
     VF_ASSUME(fill != 0 && odd1 != 0 && odd2 != 0);
     unsigned o1 = nondet_uint(), o2 = nondet_uint();
+#ifdef VF_NOODD
+    VF_ASSUME(o1 >= VF_MAXLEN && o2 >= VF_MAXLEN);
+#endif
     unsigned d[VF_STRUCT ? VF_STRUCT : 1];
     for (unsigned k = 0; k < VF_STRUCT; k++) d[k] = nondet_uint();
+#ifdef VF_EDGE_LIGHT   /* content concrete ('a' labels of 63); only the total length and the root dot are symbolic */
+    VF_ASSUME(fill == 'a' && (d[3] == n - 1 || d[3] >= VF_MAXLEN));
+#endif
+#ifdef VF_FIXDOTS      /* three full 63-byte labels in front: the 253/254 edge with a concrete prefix */
+    VF_ASSUME(d[0] == 63 && d[1] == 127 && d[2] == 191 && o1 >= 192 && o2 >= 192);
+#endif
     for (unsigned i = 0; i < VF_MAXLEN; i++) {
         unsigned char c = fill;
+#ifndef VF_NOODD
         if (i == o1) c = odd1;
         if (i == o2) c = odd2;
+#endif
         for (unsigned k = 0; k < VF_STRUCT; k++)
             if (i == d[k]) c = '.';
+#ifdef VF_FIXDOTS
+        if (i < 192) { s[i] = (i % 64 == 63) ? '.' : 'a'; continue; }     /* concrete prefix: 3 labels of 63 */
+#endif
         s[i] = (i < n) ? c : 0;
     }
     s[VF_MAXLEN] = 0;
